@@ -48,3 +48,22 @@ Example C07_LA_tcr_monitor_nonvacuous :
   mverdict (fun (s : bool) (_ : expr) => s) (ESometimeBefore (EBool true) (EBool true)) [false; true] = false /\
   mverdict (fun (s : bool) (_ : expr) => negb s) (ESometime (EBool true)) [true; false] = true.
 Proof. split; reflexivity. Qed.
+
+(* PLAN LEVEL for `always` constraints, completeness direction (hypotheses as in C06_LA_tcr_always_plan, Props/C06_tcr.v):
+   a plan that is executable in the original problem, reaches the goal and visits only states satisfying every always
+   body is - unchanged - a valid plan of the compiled problem; in particular no action such a plan uses was left out *)
+Theorem C07_LA_tcr_always_plan :
+  forall (smp sub0 : expr -> expr) (mon : nat -> N) (C : list expr) (P : problem) (G : state -> Prop),
+    smp_exact smp -> unique_ids P -> gproblem P = true -> always_only P C = true ->
+    (forall s aid a args t, G s -> lookup_action P aid = Some a -> spec_step false P s a args = Some t -> G t) ->
+    (forall s aid a, G s -> lookup_action P aid = Some a -> reg_ok P s a = true) ->
+    (forall s phi, G s -> In (EAlways phi) C -> gdef s phi = true) ->
+    forall P', tcr_compile smp sub0 mon C P = Some P' ->
+    forall s0 pi, G s0 -> AH P C s0 = true ->
+      always_valid P C s0 pi = true -> valid_plan false P' s0 pi = true.
+Proof.
+  intros smp sub0 mon C P G H1 H2 H3 H4 H5 H6 H7 P1 H8 s0 pi H9 H10 H11.
+  rewrite (tcr_always_plan smp sub0 mon C P G H1 H2 H3 H4 H5 H6 H7 P1 H8 s0 pi H9 H10). exact H11.
+Qed.
+Print Assumptions C07_LA_tcr_always_plan.
+(* non-vacuity: Example C06_LA_tcr_always_plan_nonvacuous (Props/C06_tcr.v) instantiates every hypothesis *)
